@@ -1,0 +1,178 @@
+//go:build verif
+
+package p2p
+
+// Verification seam for property C18 (multiplexed peer messaging). Add-only; compiled only
+// with -tags verif. The two call sites in conn.go (verifBeforeStreamLock at the top of
+// Stream.queueSends, verifBeforeEnqueue at the top of Stream.queueSend) have no-op twins in
+// verif_c18_off.go.
+
+import (
+	"math/rand/v2"
+	"net"
+	"sync"
+	"time"
+
+	"github.com/canopy-network/canopy/lib"
+	limiter "github.com/mxk/go-flowrate/flowrate"
+)
+
+// VerifC18Scheduler receives the scheduling points of the sender side of one MultiConn.
+// The calls are made on the goroutine that called MultiConn.Send.
+type VerifC18Scheduler interface {
+	// BeforeStreamLock is called before Stream.mu.Lock in queueSends (multi-packet enqueue path)
+	BeforeStreamLock(c *MultiConn, topic lib.Topic, packets []*Packet)
+	// BeforeEnqueue is called before every packet enqueue (queueSend)
+	BeforeEnqueue(c *MultiConn, topic lib.Topic, packet *Packet)
+}
+
+type verifC18Reg struct {
+	c     *MultiConn
+	sched VerifC18Scheduler
+}
+
+var verifC18Streams sync.Map // *Stream -> verifC18Reg
+
+func verifBeforeStreamLock(s *Stream, packets []*Packet) {
+	if r, ok := verifC18Streams.Load(s); ok {
+		reg := r.(verifC18Reg)
+		reg.sched.BeforeStreamLock(reg.c, s.topic, packets)
+	}
+}
+
+func verifBeforeEnqueue(s *Stream, p *Packet) {
+	if r, ok := verifC18Streams.Load(s); ok {
+		reg := r.(verifC18Reg)
+		reg.sched.BeforeEnqueue(reg.c, s.topic, p)
+	}
+}
+
+// VerifC18Consts exposes the size constants of conn.go.
+type VerifC18Consts struct {
+	MaxDataChunkSize, MaxPacketSize, MaxMessageSize, PacketHeaderSize int
+	SendQueueCap, InboxCap                                            int
+	HeartbeatTopic                                                    lib.Topic
+	HeartbeatInterval                                                 time.Duration
+}
+
+func VerifC18GetConsts() VerifC18Consts {
+	return VerifC18Consts{
+		MaxDataChunkSize: int(maxDataChunkSize), MaxPacketSize: int(maxPacketSize), MaxMessageSize: int(maxMessageSize),
+		PacketHeaderSize: packetHeaderSize, SendQueueCap: maxStreamSendQueueSize, InboxCap: maxInboxQueueSize,
+		HeartbeatTopic: heartbeatTopic, HeartbeatInterval: heartbeatInterval,
+	}
+}
+
+// VerifC18NewMultiConn builds a MultiConn exactly like NewConnection does, but around a plain
+// net.Conn (no handshake) and WITHOUT starting the send / receive / heartbeat goroutines.
+// sched may be nil (no scheduling points); onErr (may be nil) is told the error before the
+// production OnPeerError callback runs.
+func VerifC18NewMultiConn(p *P2P, conn net.Conn, info *lib.PeerInfo, sched VerifC18Scheduler, onErr func(error)) *MultiConn {
+	c := &MultiConn{
+		conn:          conn,
+		uuid:          rand.Uint64(),
+		Address:       info.Address,
+		streams:       p.NewStreams(),
+		quitSending:   make(chan struct{}, maxChanSize),
+		quitReceiving: make(chan struct{}, maxChanSize),
+		error:         sync.Once{},
+		p2p:           p,
+		close:         sync.Once{},
+		log:           p.log,
+		peerInfo:      info,
+	}
+	c.onError = func(err error, pub []byte, remote string, uuid uint64) {
+		if onErr != nil {
+			onErr(err)
+		}
+		p.OnPeerError(err, pub, remote, uuid)
+	}
+	now := time.Now().UnixNano()
+	c.lastPong.Store(now)
+	c.lastHeard.Store(now)
+	if sched != nil {
+		for _, s := range c.streams {
+			verifC18Streams.Store(s, verifC18Reg{c: c, sched: sched})
+		}
+	}
+	return c
+}
+
+// VerifC18Release forgets the scheduler registration of c's streams.
+func VerifC18Release(c *MultiConn) {
+	for _, s := range c.streams {
+		verifC18Streams.Delete(s)
+	}
+}
+
+// VerifC18RunReceiveService runs the real receive service on the calling goroutine.
+func (c *MultiConn) VerifC18RunReceiveService() { c.startReceiveService() }
+
+// VerifC18StartAll starts the real send, receive and heartbeat goroutines (free-running pass).
+func (c *MultiConn) VerifC18StartAll() { c.Start() }
+
+// VerifC18HasError reports whether Error() ran on the connection.
+func (c *MultiConn) VerifC18HasError() bool { return c.hasError.Load() }
+
+// VerifC18QueueLen is the number of packets waiting in the send queue of a topic (-1: no stream).
+func (c *MultiConn) VerifC18QueueLen(topic lib.Topic) int {
+	s, ok := c.streams[topic]
+	if !ok {
+		return -1
+	}
+	return len(s.sendQueue)
+}
+
+// VerifC18AssemblerLen is the number of bytes held in the reassembly buffer of a topic (-1: no stream).
+func (c *MultiConn) VerifC18AssemblerLen(topic lib.Topic) int {
+	s, ok := c.streams[topic]
+	if !ok {
+		return -1
+	}
+	return len(s.msgAssembler)
+}
+
+// VerifC18StreamLockFree probes the real per-stream mutex with TryLock (and releases it again).
+func (c *MultiConn) VerifC18StreamLockFree(topic lib.Topic) bool {
+	s, ok := c.streams[topic]
+	if !ok {
+		return true
+	}
+	if s.mu.TryLock() {
+		s.mu.Unlock()
+		return true
+	}
+	return false
+}
+
+// VerifC18Drainer performs single steps of the send service: one iteration of the loop body
+// of startSendService for a topic chosen by the caller instead of by Go's select.
+type VerifC18Drainer struct {
+	c *MultiConn
+	m *limiter.Monitor
+}
+
+func VerifC18NewDrainer(c *MultiConn) *VerifC18Drainer {
+	return &VerifC18Drainer{c: c, m: limiter.New(0, 0)}
+}
+
+// DrainOne takes the packet at the head of the topic's send queue (false if the queue is empty
+// or closed) and sends it with the real sendPacketWithTiming (wire-encode + write to the conn).
+func (d *VerifC18Drainer) DrainOne(topic lib.Topic) bool {
+	s, ok := d.c.streams[topic]
+	if !ok {
+		return false
+	}
+	select {
+	case pwt, open := <-s.sendQueue:
+		if !open || pwt == nil {
+			return false
+		}
+		d.c.sendPacketWithTiming(pwt, d.m)
+		return true
+	default:
+		return false
+	}
+}
+
+func (d *VerifC18Drainer) Close() { d.m.Done() }
